@@ -459,9 +459,26 @@ class Program:
                         out.add(c["closure"])
         return out
 
-    def reachable_fns(self, roots):
+    def external_trait_impl_methods(self):
+        """Methods of local impls of traits defined in other crates (Dialect, Iterator, Drop, Display, ...):
+        external code calls these back, which the call graph of the analysed crate cannot see."""
+        local_tops = {p.split("::")[0] for p in self.fns if not p.startswith("<") and "::" in p}
+        out = []
+        for im in self.impls:
+            tr = im.get("trait")
+            if not tr or tr.split("::")[0] in local_tops:
+                continue
+            for meth in im.get("methods", []):
+                out.append(meth["impl_fn"])
+        return out
+
+    def reachable_fns(self, roots, callbacks=False):
+        """Functions reachable in the call graph.  With callbacks=True the methods of local impls of
+        external traits count as reachable as soon as anything is (sound for call-backs from dependencies)."""
         seen = set()
         dq = deque()
+        if callbacks:
+            roots = list(roots) + self.external_trait_impl_methods()
         for r in roots:
             if r in self.fns and r not in seen:
                 seen.add(r)
